@@ -165,3 +165,19 @@ func VP_C02_gpt_entry_name35() { c02Entry("abcdefghijklmnopqrstuvwxyz012345678")
 func VP_C02_gpt_entry_name36() { c02Entry("abcdefghijklmnopqrstuvwxyz0123456789") }
 func VP_C02_gpt_entry_nameU()  { c02Entry("Größe-日本語-ディスク") }
 func VP_C02_gpt_entry_nameS()  { c02Entry("abcdefghijklmnopqrstuvwxyz01234567\U0001F4BE") }
+
+// c02EntryTooLong: a name that needs more than 36 UTF-16 code units (whatever its rune count) is
+// refused with an error: it must neither panic nor be cut silently.
+func c02EntryTooLong(name string) {
+	p := &Partition{Index: 1, Start: vp.U64("start"), End: vp.U64("end"), Type: Type(c02TypeA), Name: name, GUID: c02GuidB}
+	vp.NoPanic()
+	b, err := p.toBytes()
+	vp.AllowPanic()
+	vp.Assert(err != nil, "a name of more than 36 UTF-16 units is refused")
+	vp.Assert(b == nil, "no entry bytes for a refused name")
+	vp.Cover("over-long name refused")
+}
+
+// 36 runes, 37 units (last rune outside the basic plane) / 37 ASCII runes
+func VP_C02_gpt_entry_name37units() { c02EntryTooLong("abcdefghijklmnopqrstuvwxyz012345678\U0001F4BE") }
+func VP_C02_gpt_entry_name37()      { c02EntryTooLong("abcdefghijklmnopqrstuvwxyz01234567890") }
